@@ -22,6 +22,8 @@ EXTENDS Bytes
 W   == INSTANCE U64 WITH Base <- 256, NB <- 8
 B32 == INSTANCE RFC4648
 R4  == INSTANCE RFC4226
+O   == INSTANCE RFC6287
+D   == INSTANCE Dec
 
 NoDigest == <<>>
 
@@ -107,6 +109,82 @@ ValTOTPExpect(Hm(_, _, _), secret, code, sec, step, p) ==
     ELSE IF ~InTimeDomain(sec) THEN AnyX
     ELSE IF ~StepIs(step, sec, rp.period) THEN [class |-> "badhint"]
     ELSE ValidateAt(Hm, secret, code, step, rp.alg, rp.digits, rp.skew, W!Leq(rp.skew, step))
+
+(* ---------------- OCRA (C05, C06, C14) ------------------------------------ *)
+(* suite argument  su = [kind, name, cfg]:                                    *)
+(*   kind "raw": the Suite returned by NewRawSuite(name); cfg = what its      *)
+(*               Config() reports (observed);                                 *)
+(*   kind "cfg": a hand-built SuiteConfig (cfg.raw = its arbitrary Raw text). *)
+(* For a raw suite the configuration is what the NAME says whenever the name  *)
+(* follows the grammar (so a registry entry that contradicts its name yields  *)
+(* a wrong code, C05, not only a wrong description, C15); the suite string in *)
+(* the message is the name itself.                                            *)
+EffCfg(su) ==
+    IF su.kind = "raw"
+    THEN LET rd == O!Reading(su.name) IN
+         IF rd.class = "wellformed"
+         THEN [rd.cfg EXCEPT !.ts = IF rd.tsKnown THEN @ ELSE su.cfg.ts]
+         ELSE [su.cfg EXCEPT !.raw = su.name]
+    ELSE su.cfg
+
+GenOCRAExpect(Hm(_, _, _), secret, su, in) ==
+    LET reg == B32!Region(secret)
+        cfg == EffCfg(su)
+    IN  IF reg = "reject" \/ (O!EnumsInDomain(cfg) /\ (~O!SuiteUsable(cfg) \/ ~O!Admissible(cfg, in))) THEN ErrorNV
+        ELSE IF reg # "accept" \/ ~O!EnumsInDomain(cfg) THEN AnyX
+        ELSE LET sum == Hm(cfg.hash, B32!KeyOf(secret), O!Msg(cfg, in)) IN
+             IF sum = NoDigest THEN MissX ELSE Value(O!OCRA(sum, cfg.digits))
+
+(* C06: validation accepts exactly what generation returns                    *)
+ValOCRAExpect(Hm(_, _, _), secret, code, su, in) ==
+    LET g == GenOCRAExpect(Hm, secret, su, in) IN
+    CASE g.class = "value"   -> IF code = g.val THEN AcceptX ELSE RefuseX
+      [] g.class = "errorNV" -> RefuseX
+      [] OTHER -> g
+
+NoErrorX == Value(<<>>)
+(* OCRAInput.Validate(cfg), SuiteConfig.Validate(), NewSuite(cfg)  (C14)      *)
+InputValidateExpect(cfg, in) == IF ~O!EnumsInDomain(cfg) THEN AnyX
+                                ELSE IF O!Admissible(cfg, in) THEN NoErrorX ELSE ErrorX
+SuiteValidateExpect(cfg) == IF ~O!EnumsInDomain(cfg) THEN AnyX
+                            ELSE IF O!SuiteUsable(cfg) THEN NoErrorX ELSE ErrorX
+
+(* ---------------- input helpers (C17) ------------------------------------- *)
+To8BEExpect(v) == Value(v)                                   \* the word IS the big-endian encoding
+ParseDec8Expect(s) == IF D!ParseUint64OK(s) THEN Value(D!ParseUint64(s)) ELSE ErrorX
+
+LeftPadHex(s, w) == IF Len(s) >= w THEN SubSeq(s, Len(s) - w + 1, Len(s)) ELSE Rep(48, w - Len(s)) \o s
+LeftPadHexExpect(s, w) == IF w \in 0..1048576 THEN Value(LeftPadHex(s, w)) ELSE AnyX
+(* MustHexPadLeft is a documented Must* helper: only its results on valid hex are specified *)
+MustHexPadLeftExpect(s, size) ==
+    IF size \in 0..524288 /\ HexOK(LeftPadHex(s, 2 * size)) THEN Value(HexDecode(LeftPadHex(s, 2 * size))) ELSE AnyX
+(* left-pad to 16 hex digits, then decode; longer texts are outside "hex timestamps become 8 bytes" *)
+ParseHexTimestampExpect(s) ==
+    IF Len(s) > 16 THEN AnyX
+    ELSE LET p == LeftPadHex(s, 16) IN IF HexOK(p) THEN Value(HexDecode(p)) ELSE ErrorX
+(* five hex request fields: empty = absent, any malformed = error             *)
+HexFieldsOK(f) == \A i \in 1..5 : HexOK(f[i])
+HexFieldsValue(f) == [i \in 1..5 |-> HexDecode(f[i])]
+(* RFC 6287 numeric question (domain: 1..64 digits, no sign)                   *)
+DecChallengeExpect(s) ==
+    IF D!IsDecText(s) /\ Len(s) <= 64 THEN Value(D!NumericQuestion(s))
+    ELSE IF D!IsDecText(s) \/ (Len(s) > 1 /\ s[1] \in {43, 45} /\ D!IsDecText(Tail(s))) THEN AnyX   \* overlong / signed
+    ELSE ErrorX
+
+(* ---------------- provisioning URLs (C16) --------------------------------- *)
+(* p = [kind, issuer, account, secret, digits, alg, period]                   *)
+URLGenDefined(p) == Len(p.issuer) > 0 /\ Len(p.account) > 0 /\ Len(p.secret) > 0
+URLInDomain(p) == 58 \notin {p.issuer[i] : i \in 1..Len(p.issuer)} /\ p.alg \in 0..2
+NormDigits(d) == IF d = 0 THEN 6 ELSE d
+NormPeriod(kind, per) == IF kind = "totp" THEN (IF per = W!Zero THEN DefaultPeriod ELSE per) ELSE DefaultPeriod
+
+(* ---------------- string <-> enum helpers --------------------------------- *)
+DigitsFromStr(s) == CASE s = <<54>> -> 6 [] s = <<56>> -> 8 [] s = <<57>> -> 9 [] s = <<49, 48>> -> 10 [] OTHER -> 6
+AlgFromStr(s) == CASE s = O!tSHA1 -> 0 [] s = O!tSHA256 -> 1 [] s = O!tSHA512 -> 2 [] OTHER -> 0
+AlgString(a) == CASE a = 0 -> O!tSHA1 [] a = 1 -> O!tSHA256 [] a = 2 -> O!tSHA512 [] OTHER -> <<>>
+
+(* ---------------- random secrets (C08) ------------------------------------ *)
+SecretSize(alg) == CASE alg = 0 -> 20 [] alg = 1 -> 32 [] alg = 2 -> 64 [] OTHER -> -1
 
 (* bounded work (C04, C19): HMAC evaluations per validation call             *)
 MaxWork == 21
